@@ -113,7 +113,7 @@ func (tree *trie) Get(key []byte) (value uint32, ok bool) {
 		}
 	}
 
-	if tree.labelVec.GetLabel(pos) == labelTerminator && !tree.hasChildVec.IsSet(pos) {
+	if tree.labelVec.GetLabel(pos) == labelTerminator && !tree.hasChildVec.IsSet(pos) && !tree.isEndOfNode(pos) {
 		if ok = tree.suffixVec.CheckSuffix(key, depth, pos); ok {
 			valPos := tree.valuePos(pos)
 			value = tree.values.Get(valPos)
